@@ -34,6 +34,7 @@ pub struct SinkLog {
     /// keep only counts, not bytes (for multi-GiB runs)
     pub counting_only: bool,
     pub accepted_total: u64,
+    pub vectored_calls: u64,
 }
 
 impl SinkLog {
@@ -222,5 +223,20 @@ impl Write for SimSink {
     fn flush(&mut self) -> io::Result<()> {
         self.log.lock().unwrap().flushes += 1;
         Ok(())
+    }
+
+    /// A native vectored write, like File's: one decision for the whole gather list, and a short
+    /// write may stop anywhere, also strictly inside one of the buffers.
+    fn write_vectored(&mut self, bufs: &[io::IoSlice<'_>]) -> io::Result<usize> {
+        let total: usize = bufs.iter().map(|b| b.len()).sum();
+        if bufs.len() <= 1 || total == 0 {
+            return self.write(bufs.first().map(|b| &b[..]).unwrap_or(&[]));
+        }
+        let mut flat = Vec::with_capacity(total);
+        for b in bufs {
+            flat.extend_from_slice(b);
+        }
+        self.log.lock().unwrap().vectored_calls += 1;
+        self.write(&flat)
     }
 }
